@@ -120,11 +120,12 @@ def gen_net(rng, cls=None, need_big=True):
     return "hg", [0, 1], [(0, [0, 1])]
 
 
-def grid_pos(rng, nodes):
-    """integer-grid positions, mostly distinct; encoded [[id, [x, y]]]"""
+def grid_pos(rng, nodes, collisions=False):
+    """integer-grid positions, pairwise distinct unless `collisions` (only used where no polygon is read back:
+    matplotlib absorbs a last vertex equal to the first into the closing vertex); encoded [[id, [x, y]]]"""
     side = 7
     pts = [(x, y) for x in range(-side, side + 1) for y in range(-side, side + 1)]
-    if rng.random() < 0.9:
+    if not collisions:
         chosen = rng.sample(pts, len(nodes))
     else:
         chosen = [rng.choice(pts[:9]) for _ in nodes]
@@ -342,8 +343,8 @@ def impl_draw(c):
             r["polygons"] = []
             for path in ec.get_paths():
                 v = [pt(p) for p in path.vertices]
-                if len(v) >= 3 and v[0] == v[-1] and v[-2] != v[0]:
-                    v = v[:-1]  # matplotlib closed the path (it appends the first vertex iff the last one differs from it)
+                if len(v) >= 2 and v[0] == v[-1]:
+                    v = v[:-1]  # matplotlib closes the path with a copy of the first vertex (positions are distinct)
                 r["polygons"].append(v)
         return r
     except Exception as ex:  # noqa
@@ -462,11 +463,18 @@ def site_of(c):
     return c["which"] if c["f"] == "draw" else c["fn"] if c["f"] == "layout_keys" else "edge_positions_from_barycenters"
 
 
+def witness(c):
+    """witness pattern appended to the failure class of an exception: a complex with mixed int/str labels is the
+    pattern of the known format-detection defect; any other raising input is a different finding"""
+    kinds = {type(n).__name__ for n in c["H"]["nodes"]}
+    return "@mixed-label-complex" if c["cls"] == "sc" and {"int", "str"} <= kinds else ""
+
+
 def pred(c, r):
     fails = []
     if c["f"] == "draw":
         if r["out"] != "ok":
-            return [("draw-raised:" + r["out"][4:], f"{c['which']} raised {r['out'][4:]}: {r.get('msg')}")]
+            return [("draw-raised:" + r["out"][4:] + witness(c), f"{c['which']} raised {r['out'][4:]}: {r.get('msg')}")]
         if c.get("hull"):
             return fails  # hull drawing only has to succeed
         exp = expected_plan(c)
@@ -504,7 +512,7 @@ def pred(c, r):
         return fails
     if c["f"] == "layout_keys":
         if r["out"] != "ok":
-            return [("layout-raised:" + r["out"][4:], f"{c['fn']}({c['cls']}) raised {r['out'][4:]}: {r.get('msg')}")]
+            return [("layout-raised:" + r["out"][4:] + witness(c), f"{c['fn']}({c['cls']}) raised {r['out'][4:]}: {r.get('msg')}")]
         if r["shape"] != "dict":
             return [("layout-return-shape", r["shape"])]
         nodes = c["H"]["nodes"]
@@ -633,7 +641,8 @@ MAX_ORDERS = [None, None, None, 0, 1, 2, 3, 6]
 def draw_case(rng, cls, enc, which=None, hull=None):
     if which is None:
         which = rng.choice(["draw", "draw", "draw_nodes", "draw_hyperedges" if cls == "hg" else "draw_simplices"])
-    c = {"f": "draw", "which": which, "cls": cls, "H": enc, "pos": grid_pos(rng, enc["nodes"]),
+    c = {"f": "draw", "which": which, "cls": cls, "H": enc,
+         "pos": grid_pos(rng, enc["nodes"], collisions=(which == "draw_nodes" and rng.random() < 0.3)),
          "pos_kind": rng.choice(["array", "array", "tuple", "list"]),
          "max_order": rng.choice(MAX_ORDERS) if which != "draw_nodes" else None}
     if cls == "sc" and which == "draw_simplices" and c["max_order"] == 0:
@@ -658,7 +667,7 @@ def layout_cases(rng, cls, enc, names):
 
 
 def edgepos_case(rng, cls, enc):
-    return {"f": "edge_positions", "cls": cls, "H": enc, "pos": grid_pos(rng, enc["nodes"]),
+    return {"f": "edge_positions", "cls": cls, "H": enc, "pos": grid_pos(rng, enc["nodes"], collisions=rng.random() < 0.2),
             "pos_kind": rng.choice(["array", "tuple", "list"])}
 
 
@@ -743,11 +752,16 @@ def shrink_violations(ctx):
                 pass
 
 
+def pick_str():
+    """a one-letter label that a small set {7, s, ...} iterates first in this process (string hashes are randomised)"""
+    return next((x for x in "abcdefghijklmnopqrstuvwxyz" if hash(x) & 7 < 5), "a")
+
+
 def corpus_cases():
     out = []
     for p in sorted(glob.glob(os.path.join(VERIF, "corpus", "C20", "*.json"))):
         try:
-            j = json.load(open(p))
+            j = json.loads(open(p).read().replace('"$S"', json.dumps(pick_str())))
             j = j["case"] if "case" in j else j
             out += j if isinstance(j, list) else [j]
         except Exception:  # noqa
@@ -826,7 +840,7 @@ def run(ctx):
     ctx.rule = ("networks: 10 hand-picked + fn.gen_hypergraph (1-7 nodes, 0-7 edges of size 1-5; int/str/mixed/negative labels, shuffled; "
                 "explicit edge IDs; multi-edges, singleton edges, isolated nodes), as Hypergraph or as SimplicialComplex (add_simplex); draw "
                 "cases always have an edge with >= 2 nodes.  draw cases: which in draw/draw_nodes/draw_hyperedges|draw_simplices, positions "
-                "= random points of the integer grid [-7,7]^2 (10% with collisions) as array/tuple/list, max_order in {None,0,1,2,3,6}, "
+                "= distinct random points of the integer grid [-7,7]^2 (coinciding points only for draw_nodes / barycenters) as array/tuple/list, max_order in {None,0,1,2,3,6}, "
                 "style arguments node_size/node_fc/node_lw/node_ec/dyad_color/dyad_lw/edge_fc/edge_ec each absent or scalar/dict/list/"
                 "array/stat/dict-of-numbers (per-element shapes only where elements exist), hull=True in 8% (success only).  layout cases: "
                 "every *_layout function of xgi.drawing.layout x option variants by signature, also on networks without edges.  "
